@@ -1,4 +1,6 @@
 SPECIFICATION FairSpec
 CONSTANT Depth = 99
+CONSTANT ToolSet <- CoreTools
 PROPERTY EventuallyExits
+PROPERTY BlockedIsJoinable
 CHECK_DEADLOCK FALSE
